@@ -64,16 +64,12 @@ func (d *DynamicAttr) Cost() int {
 	return 0
 }
 
+// ResolveAttr resolves the attribute for the given context. The result is not
+// kept: it depends on the context (os.stdout is the standard output of the OS
+// the context carries), and the attribute belongs to a module that outlives
+// the context and may be shared by concurrent evaluations.
 func (d *DynamicAttr) ResolveAttr(ctx context.Context, name string) (Object, error) {
-	if d.value != nil {
-		return d.value, nil
-	}
-	attr, err := d.fn(ctx, name)
-	if err != nil {
-		return nil, err
-	}
-	d.value = attr
-	return attr, nil
+	return d.fn(ctx, name)
 }
 
 func NewDynamicAttr(name string, fn ResolveAttrFunc) *DynamicAttr {
